@@ -4,7 +4,7 @@
    interleaving of the labels, every placement of object removal / context stop / connection loss,
    every request table [info] (which arguments/results can be pickled, what each body yields).
    fx = true is the repaired tree (what /repo contains now); fx = false the pinned tree. *)
-Require Import QV.C01.Model QV.C01.ProofsBasic.
+Require Import QV.C01.Model QV.C01.ProofsBasic QV.C01.ProofsProgress.
 
 (* a call never completes twice: a future never holds two outcomes *)
 Theorem C01_at_most_once : forall fx info ls s,
@@ -25,6 +25,36 @@ Theorem C01_own_outcome : forall fx info ls s r o,
   run fx info init ls = Some s -> In (r, o) (out s) -> o = body (info r) \/ o = ODeliveryError.
 Proof. exact own_outcome. Qed.
 Print Assumptions C01_own_outcome.
+
+
+(* ---- no call waits forever (repaired tree) -------------------------------------------------------- *)
+
+(* every issued call is accounted for: it holds an outcome, or its request / reply sits in one of the
+   pipeline stages, or it is in the client connection's pending table (which the closing of the
+   connection turns into a delivery error); plus the relations between the lifecycle flags *)
+Theorem C01_accounted : forall fx info ls s, run fx info init ls = Some s -> AccInv fx info s.
+Proof. exact reachable_acc. Qed.
+Print Assumptions C01_accounted.
+
+(* in every reachable state in which some issued call has no outcome yet, a step that continues
+   work already begun is enabled ([progress_labels]: the pipeline steps with every possible observed
+   outcome, the closing of a connection whose peer entry is gone, end-of-stream, the sweep at the end
+   of the client's stop(), and — once the server's router has been switched off — the removal of
+   its peer entries, i.e. the continuation of MessageRouter.stop).  No new call and no new fault is
+   needed for progress. *)
+Theorem C01_no_stuck : forall fx info ls s r,
+  fx = true -> run fx info init ls = Some s -> r < nxt s -> has_out s r = false ->
+  exists l, In l (progress_labels s) /\ step fx info s l <> None.
+Proof. exact no_stuck. Qed.
+Print Assumptions C01_no_stuck.
+
+(* ... and such continuation steps cannot go on forever: each strictly decreases [measure].  Together:
+   from any reachable state, after at most [measure s] continuation steps every call issued so far
+   holds its outcome — no call waits forever. *)
+Theorem C01_progress_terminates : forall fx info s l s',
+  In l (progress_labels s) -> step fx info s l = Some s' -> measure s' < measure s.
+Proof. exact progress_decreases. Qed.
+Print Assumptions C01_progress_terminates.
 
 (* The pinned tree (fx = false) loses calls: a remote call whose argument cannot be pickled ends up
    nowhere — no outcome, not in any queue, not in the pending table — so its caller waits forever.
